@@ -9,15 +9,15 @@ namespace Pyro.ServerLoop
 
 open Pyro.Server
 
-/-- every containment layer the property rests on ends in a catch-all for `Exception`.
+/-- every containment layer the property rests on contains every subclass of `Exception`.
     (`thrJob`, the ladder inside the request loop of a connection job, is not among them: whatever
     it lets through still meets the job's `finally` and then `Worker.run`'s catch-all.) -/
 structure GoodCfg (g : Cfg) : Prop where
-  thrShake : Handler.exception ∈ g.thrShake
-  thrDeny : Handler.exception ∈ g.thrDeny
-  thrWorker : Handler.exception ∈ g.thrWorker
-  muxReq : Handler.exception ∈ g.muxReq
-  muxShake : Handler.exception ∈ g.muxShake
+  thrShake : ∀ c, isException c = true → caught g.thrShake c = true
+  thrDeny : ∀ c, isException c = true → caught g.thrDeny c = true
+  thrWorker : ∀ c, isException c = true → caught g.thrWorker c = true
+  muxReq : ∀ c, isException c = true → caught g.muxReq c = true
+  muxShake : ∀ c, isException c = true → caught g.muxShake c = true
 
 /-- client-originated: whatever is raised behind an item is a subclass of `Exception` -/
 def ClientEv : Ev → Prop
@@ -27,11 +27,8 @@ def ClientEv : Ev → Prop
 instance (ev : Ev) : Decidable (ClientEv ev) := by
   cases ev <;> unfold ClientEv <;> infer_instance
 
-theorem caught_of_exception {hs : List Handler} (h : Handler.exception ∈ hs) {c : Cls}
-    (hc : isException c = true) : caught hs c = true := by
-  unfold caught
-  rw [List.any_eq_true]
-  exact ⟨_, h, hc⟩
+theorem caught_of_exception {cs : List Cls} (h : ∀ c, isException c = true → caught cs c = true) {c : Cls}
+    (hc : isException c = true) : caught cs c = true := h c hc
 
 /-! ### what escapes -/
 
